@@ -31,7 +31,7 @@ def alphabet(W, rng=None, with_bool=False):
     cons = [
         T("ULT", x, K(2)), T("UGT", x, K(1)), T("__eq__", x, K(m)), T("__eq__", x, K(1)), T("__ne__", x, K(0)),
         T("__eq__", T("__and__", x, K(1)), K(1)), T("SLT", x, K(0)), T("SGE", x, K(0)), T("SGT", x, K(m)),
-        T("ULE", y, K(1)), T("__eq__", y, K(0)), T("__ne__", y, K(m)), T("SLE", y, K(m)),
+        T("ULE", y, K(1)), T("__eq__", y, K(0)), T("__eq__", y, K(1)), T("__ne__", y, K(m)), T("SLE", y, K(m)),
         T("__eq__", T("__add__", x, y), K(3)), T("ULT", x, y), T("__eq__", x, y), T("__ne__", x, y),
         T("__eq__", T("__xor__", x, y), K(1)), T("SGT", T("__add__", K(m - 1), y), y),
         T("Or", T("__eq__", x, K(0)), T("__eq__", x, K(m))), T("And", T("UGE", x, K(1)), T("ULE", x, K(2))),
@@ -144,7 +144,9 @@ def random_history(rng, A, cls, kw, length, multi=False, pick=False, unsat_core=
             H.append(["add_replacement", s, x, BVV(rng.randrange(m + 1), W), rng.random() < 0.5])
             continue
         if unsat_core and r > 0.90:
-            r = 0.96
+            r = 0.96 if rng.random() < 0.6 or not multi else r
+        if multi and 0.60 < r < 0.70 and len(live) >= 2:
+            r = 0.98            # combine / merge / split more often
         if r < 0.30:
             k = 1 if rng.random() < 0.8 else 2
             batch = [rng.choice(A["cons"]) for _ in range(k)]
@@ -154,7 +156,10 @@ def random_history(rng, A, cls, kw, length, multi=False, pick=False, unsat_core=
                 eqs = [c for c in A["cons"] if c[0] in ("__eq__", "Not")]
                 c0 = rng.choice(A["cons"])
                 batch = [c0, c0, rng.choice(eqs)] if rng.random() < 0.5 else [c0, rng.choice(eqs), c0]
-            H.append(["add", s, batch])
+            if unsat_core and rng.random() < 0.3:
+                H.append(["add", s, batch, "annot"])
+            else:
+                H.append(["add", s, batch])
         elif r < 0.82:
             q = rng.choice(QUERY_OPS)
             if q == "satisfiable":
@@ -176,19 +181,51 @@ def random_history(rng, A, cls, kw, length, multi=False, pick=False, unsat_core=
             H.append(["branch", s])
             live.append(nid)
             nid += 1
-        elif r < 0.95 and pick:
+        elif pick and (r < 0.95 or rng.random() < 0.08):
             H.append(["pickle", s])
             live.append(nid)
+            twin = nid
             nid += 1
+            # mirror: the same operations on the original and on the unpickled copy (C18 twin comparison)
+            for _m in range(rng.randint(1, 4)):
+                q = rng.choice(["add", "eval", "min", "max", "satisfiable", "solution", "simplify", "repl", "unrepl"])
+                if q == "add":
+                    c = [rng.choice(A["cons"])]
+                    mops = [["add", s, c], ["add", twin, c]]
+                elif q == "eval":
+                    e_, ex_ = expr(), extra()
+                    mops = [["eval", s, e_, m + 2, ex_], ["eval", twin, e_, m + 2, ex_]]
+                elif q in ("min", "max"):
+                    e_, sg_, ex_ = expr(), rng.random() < 0.5, extra()
+                    mops = [[q, s, e_, sg_, ex_], [q, twin, e_, sg_, ex_]]
+                elif q == "satisfiable":
+                    ex_ = extra()
+                    mops = [[q, s, ex_], [q, twin, ex_]]
+                elif q == "solution":
+                    e_, v_ = expr(), BVV(rng.randrange(m + 1), W)
+                    mops = [[q, s, e_, v_, [], True], [q, twin, e_, v_, [], True]]
+                elif q == "simplify":
+                    mops = [[q, s], [q, twin]]
+                elif cls.startswith("SolverReplacement"):
+                    xv = BVS("x", W)
+                    if q == "repl":
+                        v_ = BVV(rng.randrange(m + 1), W)
+                        mops = [["add_replacement", s, xv, v_, True], ["add_replacement", twin, xv, v_, True]]
+                    else:
+                        mops = [["remove_replacements", s, xv], ["remove_replacements", twin, xv]]
+                else:
+                    continue
+                H.extend(mops)
         elif r < 0.97 and unsat_core:
             H.append(["unsat_core", s])
         elif multi and len(live) >= 2 and r < 0.985:
-            o = rng.choice([i for i in live if i != s])
+            cand = [i for i in live if i != s]
+            others = rng.sample(cand, 2) if len(cand) >= 2 and rng.random() < 0.4 else [rng.choice(cand)]
             if rng.random() < 0.5:
-                H.append(["combine", s, [o]])
+                H.append(["combine", s, others])
             else:
-                conds = [rng.choice(A["cons"]), rng.choice(A["cons"])]
-                H.append(["merge", s, [o], conds, -1])
+                conds = [rng.choice(A["cons"]) for _ in range(len(others) + 1)]
+                H.append(["merge", s, others, conds, -1])
             live.append(nid)
             nid += 1
         elif multi and r < 0.995:
@@ -301,6 +338,29 @@ def mode_of(cls, kw, call_exact):
     return "exact"
 
 
+try:
+    import claripy as _cl
+
+    class Tag(_cl.Annotation):
+        """a plain (eliminatable, non-relocatable) annotation carrying an integer (module level: picklable)"""
+        eliminatable, relocatable = True, False
+
+        def __init__(self, k):
+            self.k = k
+
+        def __hash__(self):
+            return hash(("Tag", self.k))
+
+        def __eq__(self, o):
+            return type(o) is type(self) and o.k == self.k
+except ImportError:          # the engine imports this module without claripy only for the alphabets
+    Tag = None
+
+
+def TagAnno(k):
+    return Tag(k)
+
+
 class NoneAnswer(Exception):
     """a query returned None instead of a value (seen on SolverVSA for an empty abstract value)"""
 
@@ -341,14 +401,14 @@ def run_history(H, vars_, tid, cfg, step_hook=None):
                 held.extend(getattr(ch, "constraints", []))
             for c in held:
                 if c.hash() not in d:
-                    d[c.hash()] = TM.ser(c)
+                    d[c.hash()] = TM.ser(c, ann=bool(c.annotations))
         except Exception:  # noqa: BLE001
             pass
 
     def ev_base(call, s):
         return {"call": call, "s": s, "new": [], "e": DUMMY, "es": [], "n": 0, "v": DUMMY, "signed": False,
                 "extra": [], "cs": [], "others": [], "anc": -1, "ret": [], "rets": [], "groups": [], "scons": [],
-                "exc": "", "excClaripy": False, "mode": "exact", "fault": 0, "fired": False, "conc": False}
+                "exc": "", "excClaripy": False, "mode": "exact", "fault": 0, "fired": False, "conc": False, "csb": []}
 
     for op_index, op in enumerate(H):
         if step_hook is not None:
@@ -385,6 +445,11 @@ def run_history(H, vars_, tid, cfg, step_hook=None):
             if call == "add":
                 e["cs"] = op[2]
                 built = [B(c) for c in op[2]]
+                if len(op) > 3 and op[3] == "annot":
+                    # constraints carrying an annotation: the core must return THESE objects
+                    built = [c.annotate(TagAnno(op_index * 10 + j)) for j, c in enumerate(built)]
+                    e["cs"] = [TM.ser(c, ann=True) for c in built]
+                e["csb"] = [TM.ser(c, ann=bool(c.annotations)) for c in built]
                 e["cfalse"] = any(c.op == "BoolV" and c.args[0] is False for c in built)
                 sol.add(built)
             elif call == "satisfiable":
@@ -467,11 +532,14 @@ def run_history(H, vars_, tid, cfg, step_hook=None):
                 snapshot_held(s, sol)
                 e["scons"] = list(ever_held[s].values())
                 core = sol.unsat_core()
-                e["rets"] = [TM.ser(c) if isinstance(c, claripy.ast.Base) else ["NOTAST", type(c).__name__, [], []]
-                             for c in core]
+                e["rets"] = [TM.ser(c, ann=bool(c.annotations)) if isinstance(c, claripy.ast.Base)
+                             else ["NOTAST", type(c).__name__, [], []] for c in core]
             elif call == "add_replacement":
                 e["e"], e["v"] = op[2], op[3]
                 sol.add_replacement(B(op[2]), B(op[3]), invalidate_cache=bool(op[4]) if len(op) > 4 else True)
+            elif call == "remove_replacements":
+                e["e"] = op[2]
+                sol.remove_replacements({B(op[2]).hash()})
             elif call == "drop":
                 del S[s]
             else:
@@ -517,7 +585,7 @@ def main():
             tr, S, meta = run_history(H, A["vars"], f"{job.get('tag', 'r')}-{job.get('seed', 0)}-{i}", job.get("cfg", {}))
             if job.get("probe", True):
                 # probes run on the same objects; append their events to the same trace
-                PH = probe_battery(A, sorted(S), rng.randrange(3))
+                PH = probe_battery(A, sorted(S), rng.randrange(3)) + core_probes(S, meta)
                 tr2 = continue_history(PH, S, meta, A["vars"], job.get("cfg", {}))
                 tr["ev"].extend(tr2)
             pass
@@ -534,6 +602,10 @@ def main():
             n_calls += len(tr["ev"])
             out.write(tr, nontrivial_key=[H], outcome="trace", sample={"history": H[:8]})
     out.close({"calls": n_calls})
+
+
+def core_probes(S, meta):
+    return [["unsat_core", s] for s in sorted(S) if meta[s][1].get("track")]
 
 
 def continue_history(PH, S, meta, vars_, cfg):
@@ -553,7 +625,7 @@ def continue_history(PH, S, meta, vars_, cfg):
         e = {"call": call, "s": s, "new": [], "e": DUMMY, "es": [], "n": 0, "v": DUMMY, "signed": False,
              "extra": [], "cs": [], "others": [], "anc": -1, "ret": [], "rets": [], "groups": [], "scons": [],
              "exc": "", "excClaripy": False, "mode": mode_of(cls, kw, exact), "fault": 0, "fired": False,
-             "conc": False, "probe": True, "cls": cls}
+             "conc": False, "probe": True, "cls": cls, "csb": []}
         B = lambda t: TM.build(t, "std", cache)  # noqa: E731
         try:
             if call == "satisfiable":
@@ -569,6 +641,16 @@ def continue_history(PH, S, meta, vars_, cfg):
             elif call == "solution":
                 e["e"], e["v"] = op[2], op[3]
                 e["ret"] = [[vbits(bool(sol.solution(B(op[2]), B(op[3]), **xk)), None)]]
+            elif call == "unsat_core":
+                held = list(sol.constraints)
+                for ch in getattr(sol, "_solver_list", []) or []:
+                    held.extend(getattr(ch, "constraints", []))
+                e["scons"] = [TM.ser(c, ann=bool(c.annotations)) for c in held]
+                e["loose"] = True      # no record of every constraint ever held by a derived solver: membership is
+                #                        judged against what it holds now (see SolverAbs)
+                core = sol.unsat_core()
+                e["rets"] = [TM.ser(c, ann=bool(c.annotations)) if isinstance(c, claripy.ast.Base)
+                             else ["NOTAST", type(c).__name__, [], []] for c in core]
         except claripy.errors.UnsatError:
             e["exc"], e["excClaripy"] = "UnsatError", True
         except claripy.errors.ClaripyError as ex:
